@@ -77,6 +77,7 @@ FIXED = [
     "fixed: property=C05 802e71a `Memory m: \"signal-dot\"; m.write(100, reset=r, set=s)` with r on signal-dot: the remapped reset used the hard-wired internal signal-dot, i.e. the cell's own signal, and the latch never set (found on the thorough tier)",
     "fixed: property=C20 fd2f668 `Signal n = (a * 2) + 1; Signal d = a * 2;`: the shared combinator kept the description 'computing n'; no combinator carried d's name and line",
     "fixed: property=C13 ead468b `(y * 2) | x.type` with an untyped x emitted x and the result on a signal literally named `__v1` (not a game signal)",
+    "fixed: property=C16 7e8dd8a a loop inside a function whose iterator has the name of a parameter read the parameter in every iteration",
     "fixed: property=C01 832242e `(c : k) && x` / `(c : k) || (d : j)` with constants other than 0/1 took the boolean shortcut (x*y, (x+y)>0) and yielded k or 0 instead of 1",
     "fixed: property=C01 7701d37 a comparison with an integer literal on the left (`3 < a`) was emitted as `signal-0 < a`",
 ]
